@@ -6,6 +6,7 @@
 -/
 import AttrsModel.Proofs.C15Rules
 import AttrsModel.Proofs.C15Builder
+import AttrsModel.Proofs.SrcDefine
 
 namespace Attrs.C15
 
@@ -404,5 +405,21 @@ example :
     let c := { plain with autoDetect := .t, ownSetattr := true, hash := .bad, fields := [{ (fld "a") with onSetattr := .hook }] }
     defError c = some .valueError ∧ allowedKind c .valueError = true ∧ allowedKind c .typeError = true := by
   decide
+
+/-! ### T1b: the definition-time rejection in `define(...).wrap` as written in /repo's source on this run -/
+
+/-- **C15_source_define_rejects_hooks_below_frozen**: the translated body of `define(...).wrap` raises ValueError
+    *iff* an `on_setattr` other than None / `NO_OP` was passed and some direct base's `__setattr__` is the frozen one —
+    before any `attrs(...)` call is made (no effect precedes the raise) — for every tuple of bases. -/
+theorem C15_source_define_rejects_hooks_below_frozen (env : Py.Env) (ext : Py.Ext) (cls : Py.PV) (o : Src.OnSet) (frozen : Bool) (aa : Option Bool)
+    (bases : List Py.Atom) (fb : Py.Atom → Bool)
+    (h1 : env "on_setattr" = o.pv) (h2 : env "setters.NO_OP" = Src.oNoOp) (h3 : env "_DEFAULT_ON_SETATTR" = Src.oDefault)
+    (h4 : env "_frozen_setattrs" = Src.oFrozenSetattrs) (h5 : env "frozen" = Py.vBool frozen)
+    (h6 : env "auto_attribs" = (match aa with | none => Py.vNone | some b => Py.vBool b))
+    (hb : ext "getattr" [cls, Py.vStr "__bases__"] = .tup bases)
+    (hs : ∀ b, Py.pyIs (ext "getattr" [.a b, Py.vStr "__setattr__"]) Src.oFrozenSetattrs = Py.vBool (fb b)) :
+    (Gen.define_wrap env ext cls [] = .error .valueError ↔ (bases.any fb = true ∧ o = .hooks)) := by
+  rw [Src.define_wrap_spec env ext cls o frozen aa bases fb h1 h2 h3 h4 h5 h6 hb hs]
+  cases o <;> cases frozen <;> cases bases.any fb <;> simp [Src.defineOnSetattr]
 
 end Attrs.C15
